@@ -115,6 +115,52 @@ sys.exit(1 if bad else 0)
 '''
 
 
+def has_own_calendar(mod):
+    tp = mod.funcs.get('@digital_rf_get_time_parts')
+    return tp is not None and not any('@gmtime' in ins.text for blk in tp.blocks.values() for ins in blk)
+
+
+def own_calendar_obligation(rep, mod, stubs, st, tier):
+    """digital_rf_get_time_parts without libc gmtime: executed with the second symbolic and compared with the Gregorian characterisation"""
+    # digital_rf_get_time_parts executed on its own with the second symbolic: pure linear arithmetic
+    sec_ = z3.Int('unix_second')
+    title = 'digital_rf_get_time_parts (own calendar arithmetic, no libc gmtime): fields are the valid proleptic Gregorian date and time of day whose second count is the argument'
+    done = False
+    for (lo_, hi_, btxt, budget) in ((0, 253402300800, 'every second from 1970 to year 9999', 600), (315532800, 4102444800, 'every second from 1980 to 2100 (the full range was not explored within its budget: loops over the year)', 900 if tier == 'quick' else 3000)):
+        if done: break
+        exc_ = Exec(mod, stubs); cres = []
+        def csetup(e, lo_=lo_, hi_=hi_):
+            e.assume(z3.And(sec_ >= lo_, sec_ < hi_))
+            e.user['outs'] = [e.new_region(nm) for nm in ('year', 'month', 'day', 'hour', 'minute', 'second')]
+            return [sec_] + [Ptr(o) for o in e.user['outs']]
+        def con_path(e, status, ret):
+            if status != 'ret': cres.append(('bad', smt.mval(e.model(), sec_))); return
+            vals = [e.peek(o_, ()) for o_ in e.user['outs']]
+            if any(v is None or isinstance(v, Ptr) for v in vals): cres.append(('unknown', None)); return
+            Y, Mo, Dd, hh, mi, ss = [e.signed(v, 32) if not isinstance(v, int) else v for v in vals]
+            claim = z3.And(ret == 0, calendar_claim(Y, Mo, Dd, hh, mi, ss, sec_))
+            r_, m_, _dt = smt.prove(list(e.pc), claim, (), 120, st)
+            cres.append(('ok', None) if r_ == 'unsat' else (('bad', smt.mval(m_, sec_)) if r_ == 'sat' and m_ is not None else ('unknown', None)))
+        cut = None; npc = 0
+        try:
+            npc = exc_.explore('@digital_rf_get_time_parts', csetup, con_path, deadline=time.time() + budget)
+        except Inconclusive as e_:
+            cut = str(e_); npc = len(cres)
+        badc = [c_[1] for c_ in cres if c_[0] == 'bad' and c_[1] is not None]
+        if badc:
+            rep.violation(title, 'C03.calendar', 'calendar breakdown wrong at second(s) %s' % (badc[:4],), replay_body=CAL_REPLAY % ([(x_, 1, 1) for x_ in badc[:6]],), queries=exc_.nq, solver_s=exc_.tq, paths=npc, bounds=btxt)
+            done = True
+        elif any(c_[0] == 'unknown' for c_ in cres):
+            # a path was not decided by the solver: never replaced by the smaller range (that would hide what the full range contains)
+            rep.ob(title, 'inconclusive', btxt, exc_.nq, exc_.tq, npc, detail='solver unknown on %d path(s)' % sum(1 for c_ in cres if c_[0] == 'unknown')); done = True
+        elif cut is not None:
+            if hi_ == 4102444800: rep.ob(title, 'inconclusive', btxt, exc_.nq, exc_.tq, npc, detail=cut); done = True
+        elif not cres or any(c_[0] != 'ok' for c_ in cres):
+            rep.ob(title, 'inconclusive', detail=str(cres)[:300]); done = True
+        else:
+            rep.ob(title, 'discharged', btxt, exc_.nq, exc_.tq, npc); done = True
+
+
 def main(tier):
     rep = common.Report('C03', tier, 'proof', functions=FUNCS)
     st = smt.Stats()
@@ -317,40 +363,7 @@ def main(tier):
         rep.ob('unix_time_rational glue', 'inconclusive', detail=str(e))
 
     if own_calendar:
-        # digital_rf_get_time_parts executed on its own with the second symbolic: pure linear arithmetic
-        sec_ = z3.Int('unix_second')
-        title = 'digital_rf_get_time_parts (own calendar arithmetic, no libc gmtime): fields are the valid proleptic Gregorian date and time of day whose second count is the argument'
-        done = False
-        for (lo_, hi_, btxt, budget) in ((0, 253402300800, 'every second from 1970 to year 9999', 150), (315532800, 4102444800, 'every second from 1980 to 2100 (the full range was not explored within its budget: loops over the year)', 900 if tier == 'quick' else 3000)):
-            if done: break
-            exc_ = Exec(mod, stubs); cres = []
-            def csetup(e, lo_=lo_, hi_=hi_):
-                e.assume(z3.And(sec_ >= lo_, sec_ < hi_))
-                e.user['outs'] = [e.new_region(nm) for nm in ('year', 'month', 'day', 'hour', 'minute', 'second')]
-                return [sec_] + [Ptr(o) for o in e.user['outs']]
-            def con_path(e, status, ret):
-                if status != 'ret': cres.append(('bad', smt.mval(e.model(), sec_))); return
-                vals = [e.peek(o_, ()) for o_ in e.user['outs']]
-                if any(v is None or isinstance(v, Ptr) for v in vals): cres.append(('unknown', None)); return
-                Y, Mo, Dd, hh, mi, ss = [e.signed(v, 32) if not isinstance(v, int) else v for v in vals]
-                claim = z3.And(ret == 0, calendar_claim(Y, Mo, Dd, hh, mi, ss, sec_))
-                r_, m_, _dt = smt.prove(list(e.pc), claim, (), 120, st)
-                cres.append(('ok', None) if r_ == 'unsat' else (('bad', smt.mval(m_, sec_)) if r_ == 'sat' and m_ is not None else ('unknown', None)))
-            cut = None; npc = 0
-            try:
-                npc = exc_.explore('@digital_rf_get_time_parts', csetup, con_path, deadline=time.time() + budget)
-            except Inconclusive as e_:
-                cut = str(e_); npc = len(cres)
-            badc = [c_[1] for c_ in cres if c_[0] == 'bad' and c_[1] is not None]
-            if badc:
-                rep.violation(title, 'C03.calendar', 'calendar breakdown wrong at second(s) %s' % (badc[:4],), replay_body=CAL_REPLAY % ([(x_, 1, 1) for x_ in badc[:6]],), queries=exc_.nq, solver_s=exc_.tq, paths=npc, bounds=btxt)
-                done = True
-            elif cut is not None:
-                if hi_ == 4102444800: rep.ob(title, 'inconclusive', btxt, exc_.nq, exc_.tq, npc, detail=cut); done = True
-            elif not cres or any(c_[0] != 'ok' for c_ in cres):
-                rep.ob(title, 'inconclusive', detail=str(cres)[:300]); done = True
-            else:
-                rep.ob(title, 'discharged', btxt, exc_.nq, exc_.tq, npc); done = True
+        own_calendar_obligation(rep, mod, stubs, st, tier)
     from checks import extglue
     extglue.run_unix_time(rep, st, tier)
 
